@@ -114,6 +114,8 @@ func (r *Run) subReader(s *subscription) {
 				s.mu.Unlock()
 			}
 		case "subscribe", "psubscribe", "unsubscribe", "punsubscribe", "pong":
+			// the stamp at which this frame was read, in stream order with the message frames
+			strs = append(strs, fmt.Sprintf("@%d", r.K.Stamp()))
 			select {
 			case s.acks <- strs:
 			default:
@@ -206,6 +208,11 @@ func (r *Run) doPubSub(c *client, sc *plan.Script, idx int, op *plan.Op, rec *pl
 				if strings.HasSuffix(strings.ToLower(name), a[0]) {
 					got++
 					rec.Keys = append(rec.Keys, strings.Join(a, "|"))
+					if last := a[len(a)-1]; strings.HasPrefix(last, "@") {
+						if st, err := strconv.ParseInt(last[1:], 10, 64); err == nil {
+							rec.TS = st // position of the acknowledgement in the connection's frame stream
+						}
+					}
 				}
 			case <-t.C:
 				rec.Err = "timeout"
